@@ -19,15 +19,23 @@ def verus_regions(s):
     return out
 
 def plant(c):
-    """returns list of (rel, line, fn) canaries"""
+    """returns list of (rel, name) canaries"""
     planted = []
     for rel in sorted(c.cache.keys()):
         if not rel.endswith('.rs') or rel == 'vx.rs':
             continue
         s = c.rd(rel)
-        regs = verus_regions(s)
-        if not regs:
+        if not verus_regions(s):
             continue
+        # path covers requested by the contracts: `/* @cover: COND */` inside ghost code becomes `assert(!(COND))`, which must
+        # be *reported* (COND is not refutable there): a cover that verifies means that path is contradictory (vacuous proofs)
+        covers = []
+        def cov(m):
+            name = 'cover_%d_%s' % (len(covers), re.sub(r'\W+', '_', m.group(1))[:40])
+            covers.append(name)
+            return 'if %s { crate::vx::vx_canary(); } /* vx-canary %s */' % (m.group(1), name)
+        s = re.sub(r'/\* @cover: (.*?) \*/', cov, s)
+        regs = verus_regions(s)
         inserts = []
         for m in xf.code_find_all(s, r'\bfn\s+([A-Za-z_][A-Za-z0-9_]*)'):
             i = m.start()
@@ -50,12 +58,30 @@ def plant(c):
                     continue
             except (xf.AnchorLost, ValueError):
                 continue
-            # skip closures' "fn" false positives and macro fragments without a body
             inserts.append((jb + 1, m.group(1)))
-        for pos, name in sorted(inserts, reverse=True):
-            s = s[:pos] + ' assert(false); /* vx-canary %s */' % name + s[pos:]
+        # every ghost block spliced into an exec function is a point on some path: a canary at its head must be reported too
+        fn_spans = []
+        for pos, name in inserts:
+            try:
+                fn_spans.append((pos, xf.match_close(s, pos - 1), name))
+            except xf.AnchorLost:
+                pass
+        pbs = []
+        for m in xf.code_find_all(s, r'\bproof\s*\{'):
+            owner = [n for (a, b, n) in fn_spans if a <= m.start() < b]
+            if owner:
+                pbs.append((m.end(), 'pb%d_%s' % (len(pbs), owner[-1])))
+        # a canary is a call of `proof fn vx_canary() requires false`: reported as a failed precondition and, unlike a failed
+        # assert, not assumed afterwards -- canaries on one path do not mask each other
+        for pos, name, kind in sorted([(p, n, 'fn') for p, n in inserts] + [(p, n, 'pb') for p, n in pbs], reverse=True):
+            txt = ' proof { crate::vx::vx_canary(); } /* vx-canary %s */' if kind == 'fn' else ' crate::vx::vx_canary(); /* vx-canary %s */'
+            s = s[:pos] + txt % name + s[pos:]
+        for pos, name in pbs:
+            planted.append((rel, name))
         c.wr(rel, s)
         for pos, name in inserts:
+            planted.append((rel, name))
+        for name in covers:
             planted.append((rel, name))
     return planted
 
@@ -72,13 +98,29 @@ def run(scratch):
         for sp in d['spans']:
             for t in sp.get('text', []):
                 m = re.search(r'vx-canary (\w+)', t['text'])
-                if m and 'assert' in d['message']:
+                if m and sp.get('is_primary'):
                     hit.add((sp['file_name'].replace('src/', ''), m.group(1)))
+    # functions whose canary run hit the resource limit: their unreported canaries are inconclusive, not missing
+    limited = set()
+    for d in r['diags']:
+        if d['level'] == 'error' and 'Resource limit' in d['message']:
+            for sp in d['spans']:
+                for t in sp.get('text', []):
+                    m = re.search(r'\bfn\s+(\w+)', t['text'])
+                    if m:
+                        limited.add((sp['file_name'].replace('src/', ''), m.group(1)))
+    def fn_of(name):
+        m = re.match(r'(?:pb\d+_)(\w+)$', name)
+        return m.group(1) if m else name
     # macro-expanded functions are reported once per expansion site with the same text; set semantics is enough
-    missing = [p for p in planted if p not in hit]
-    return {'planted': len(planted), 'reported': len([p for p in planted if p in hit]), 'missing': missing,
+    unrep = [p for p in planted if p not in hit]
+    inconclusive = [p for p in unrep if (p[0], fn_of(p[1])) in limited or (p[1].startswith('cover_') and any(l[0] == p[0] for l in limited))]
+    missing = [p for p in unrep if p not in inconclusive]
+    return {'planted_list': planted, 'planted': len(planted), 'reported': len([p for p in planted if p in hit]), 'missing': missing,
+            'inconclusive': inconclusive,
             'status': r['status'], 'results': (r.get('json') or {}).get('verification-results')}
 
 if __name__ == '__main__':
     res = run(sys.argv[1] if len(sys.argv) > 1 else '/tmp/vx/vac')
+    res.pop('planted_list')
     print(json.dumps(res, indent=1))
